@@ -400,7 +400,12 @@ func one(rep *core.Report, u *core.Universe, sc scenario, isReorg bool, writeNam
 	// a second start must not touch anything
 	d1 := core.Digest(rows)
 	rig2.CloseKeep()
-	rig3 := core.OpenRig(rig.Path, core.RigOpts{ReInit: true})
+	// (the second start runs with db.prepared_db = true, the standing configuration of an
+	// installation set up from a prepared file: the import must be skipped)
+	rig3 := core.OpenRig(rig.Path, core.RigOpts{ReInit: true, Prepared: true})
+	if rig3.InitErr != nil {
+		viol("restart.prepared_failed", "a second database.Init (prepared_db=true) fails on the store the crash left", nil, rig3.InitErr.Error())
+	}
 	if d2 := core.Digest(core.DumpHeaders(rig3.DB)); d2 != d1 {
 		viol("restart.not_idempotent", "a second database.Init changed stored headers", d1, d2)
 	}
